@@ -4,7 +4,7 @@ import random
 from .. import sched, simlib
 
 MANIFEST = dict(
-    engine="nsim", category="exploration",
+    engine="nsim+e2e", category="exploration",
     technique="runtime monitoring: exhaustive enumeration of command completion orders (stateless re-execution) on small graphs; "
               "START-time monitors over the reconstructed disk",
     text="For small generated graphs (2-6 statements; first builds and incremental builds after change sets) nsim enumerates EVERY "
@@ -20,6 +20,9 @@ MANIFEST = dict(
 
 def setup():
     simlib.nsim_bin()
+    from .. import e2e
+    e2e.ninja_bin()
+    e2e.vtool_bin()
 
 
 def run(ctx):
@@ -36,6 +39,11 @@ def run(ctx):
                                    change_kinds=["edit", "edit", "edit_hdr", "touch", "cmd"], build_everything_first=True,
                                    feat=dict(deps=0.9, no_manifest_path=0.6, restat=0.15, chain=0.6, dyndep=0.0, phony=0.1, generator=0.0))
     sched.run_explore(ctx, "C04", items)
+    # "its response file holds the declared content" on the real disk: a longer file may already be at that path (kept after a
+    # failed command, kept by -d keeprsp, stale), the declared content may be empty
+    from .. import e2e
+    seeds = [rng.randint(1, 10 ** 9) for _ in range(45 if quick else 800)]
+    e2e.parallel(lambda sd: e2e.c16_rsp_case(ctx, sd, prop="C04"), seeds)
     ctx.rule = ("graphs of 2..6 statements: all completion orders (cap %d per graph), 7..14 statements: first %d orders of the DFS; "
                 "distinct_nontrivial = distinct (scenario, START/FINISH interleaving) with >= 2 commands" %
                 ((250, 40) if quick else (3000, 300)))
